@@ -117,6 +117,15 @@ def run_spec(spec, *, connect_only=False, memory=None, location="spill", check_m
                 raise harness.StepCapExceeded(f"more than {b.ctx.cap} updates")
             rep.update_order.append(comp.name)
 
+    n_conn = {}
+
+    def count_connect(comp, *a):
+        # bounded progress for the connect phase: every iteration must complete at least one exchange item
+        n_conn[comp] = n_conn.get(comp, 0) + 1
+        if n_conn[comp] > 60 + 20 * len(comps):
+            raise harness.StepCapExceeded(f"{comp.name}: more than {n_conn[comp] - 1} connect calls")
+
+    REC.on("connect_entry", count_connect)
     REC.on("update_entry", count_update)
     REC.on("update_entry", on_update_entry)
     REC.on("out_get_data", on_out_get_data)
